@@ -396,3 +396,19 @@ func calleeIdent(fun ast.Expr) *ast.Ident {
 		return nil
 	}
 }
+
+// goto stmt in the func body itself (not in nested func lit)
+func containsGoto(n ast.Node) (contains bool) {
+	ast.Inspect(n, func(n ast.Node) bool {
+		switch n := n.(type) {
+		case *ast.FuncLit:
+			return false
+		case *ast.BranchStmt:
+			if n.Tok == token.GOTO {
+				contains = true
+			}
+		}
+		return !contains
+	})
+	return
+}
